@@ -1,13 +1,16 @@
 """C05 — The same settings give the same configuration through every input channel.
 
 Pipeline
- (1) build Props/C05 (text round trip, dotted = nested, channel agreement for all settings lists,
-     env-var naming injective / decodable, load_basic agrees with the reader on canonical text);
+ (1) regenerate Gen/NsTables and Gen/YesNoWords (the word table of ActionYesNo._boolean_type, by ast) and build Props/C05
+     (text round trip incl. float tokens, dotted = nested, channel agreement for all settings lists incl. floats, yes/no
+     options and list-valued options, env-var naming injective / decodable, yes/no words case-insensitive and negation,
+     load_basic agrees with the reader on canonical text);
  (2) correspondence, model (Drv/Channels) vs real code:
        envVar            vs  _formatters.get_env_var            (generated keys and prefixes, collisions included)
        dest / segsOf     vs  the path Namespace.__setitem__ creates for the dotted key
        textOf / loadText vs  json.dumps / json.loads / yaml_load / load_value(simple_types) in every parser mode
        loadBasic         vs  _loaders_dumpers.load_basic         (canonical texts and look-alikes: 'True', 'yes', '0123', ' 1 ', '1e3' ...)
+       boolWord          vs  ActionYesNo._boolean_type            (the four words in random capitalisations, non-words)
        render            vs  the renderings this harness feeds to the parser
        apply (render)    vs  the namespace the real parser returns, per channel;
  (3) property oracle on the REAL code: generated parsers (2-5 flat or dotted arguments, one argument
@@ -44,12 +47,16 @@ MANIFEST = {
             "spelling of the same settings give the same namespace; command line, config document (nested/dotted), Python object (nested/dotted) and "
             "environment renderings of the same settings give the same namespace on every base namespace that holds the keys (and store exactly the given "
             "values on any base); environment variable names are injective on keys without '__' / trailing '_' up to letter case, and the key is "
-            "recoverable from the name; with decide-witnesses of the collisions when the hypotheses are dropped. The model is tied to the code by "
+            "recoverable from the name; with decide-witnesses of the collisions when the hypotheses are dropped; floats as exact JSON number tokens "
+            "(reader round trip incl. unsigned exponents, same token through every channel); ActionYesNo (_boolean_type as written over the word "
+            "table regenerated from the source: case-insensitive, --no_k=w is the negation of --k=w, all spellings give the same boolean); "
+            "list-valued options nargs 1/2/+/* (_is_action_value_list; --k v1 v2, JSON list in the variable, list in documents). The model is tied to the code by "
             "differential correspondence of envVar/get_env_var, textOf/json.dumps, loadText and loadBasic against load_basic, json.loads, yaml_load and "
             "load_value in every parser mode, the renderings, and apply(render) against the namespace the real parser returns for each channel; the "
             "property itself is evaluated on the real code over generated parsers x settings x thirteen channels.",
     "level_note": "Trusted: Lean kernel; axioms propext/Quot.sound/Classical.choice only; the correspondence harness and its generators. The model's "
-                  "reader covers exactly the canonical text of the value grammar (ints, bools, null, safe-ASCII strings, flat lists, str->int dicts); "
+                  "reader covers exactly the canonical text of the value grammar (ints, bools, null, safe-ASCII strings, JSON number tokens, flat lists, "
+                  "str->int dicts); floats are exact tokens (that they resolve as float under the yaml loader is C01's C05_json_float_sub); "
                   "scalar resolution of arbitrary text is C01's, the type adapter C02's. jsonnet and omegaconf evaluation are oracles (partial for those "
                   "two modes: ints beyond 2^53 and '${' strings are skipped there). argparse tokenisation of '--k v' with v starting with '-' is outside. "
                   "Environment variables naming no argument are not settings (ignored by design). Non-ASCII key names are outside the envVar model.",
